@@ -416,6 +416,8 @@ def controller_objects(ctx, chi, rng, i):
                 rows.append({'ID': 'p%d' % pid, 'Time': float(t), 'Observable': 'obs%d' % o,
                              'Value': float(rng.uniform(0.5, 3))})
     df = pd.DataFrame(rows)
+    if rng.random() < 0.5:
+        df.index = rng.integers(0, 3, len(df))      # repeated row labels (a frame glued from pieces)
     inp = {'object': 'ProblemModellingController', 'kinds': kinds, 'n_mech': n_mech, 'n_ids': n_ids,
            'one_error_model_object_for_all_outputs': shared}
     ctx.case('Controller/%dout%s' % (n_out, '+shared-error-model' if shared else ''),
